@@ -97,21 +97,34 @@ def strip_lean_comments(src):
     return "".join(out)
 
 
-def lean_grep_forbidden():
-    hits = []
-    for root, _d, files in os.walk(LEAN_DIR):
-        if ".lake" in root:
+def lean_closure(modules):
+    """files of our own modules transitively imported by `modules`"""
+    seen, todo, files = set(), list(modules), []
+    while todo:
+        m = todo.pop()
+        if m in seen:
             continue
-        for fn in files:
-            if not fn.endswith(".lean"):
-                continue
-            path = os.path.join(root, fn)
-            src = strip_lean_comments(open(path, encoding="utf-8").read())
-            # string literals may mention the words (e.g. this audit); drop them
-            src = re.sub(r'"(?:[^"\\]|\\.)*"', '""', src)
-            for ln, line in enumerate(src.split("\n"), 1):
-                if FORBIDDEN.search(line):
-                    hits.append("%s:%d: %s" % (os.path.relpath(path, VERIF), ln, line.strip()[:100]))
+        seen.add(m)
+        path = os.path.join(LEAN_DIR, m.replace(".", "/") + ".lean")
+        if not os.path.exists(path):
+            continue
+        files.append(path)
+        for line in open(path, encoding="utf-8"):
+            mm = re.match(r"\s*import\s+([\w.]+)", line)
+            if mm:
+                todo.append(mm.group(1))
+    return sorted(files)
+
+
+def lean_grep_forbidden(modules):
+    hits = []
+    for path in lean_closure(modules):
+        src = strip_lean_comments(open(path, encoding="utf-8").read())
+        # string literals may mention the words; drop them
+        src = re.sub(r'"(?:[^"\\]|\\.)*"', '""', src)
+        for ln, line in enumerate(src.split("\n"), 1):
+            if FORBIDDEN.search(line):
+                hits.append("%s:%d: %s" % (os.path.relpath(path, VERIF), ln, line.strip()[:100]))
     return hits
 
 
@@ -123,7 +136,7 @@ def lean_audit(prop, theorems, imports, targets=None):
     if not ok:
         st.ok = False
         st.problems.append("lake build failed:\n" + out[-3000:])
-    hits = lean_grep_forbidden()
+    hits = lean_grep_forbidden(imports)
     if hits:
         st.ok = False
         st.problems.append("forbidden constructs in Lean sources: " + "; ".join(hits[:10]))
